@@ -854,6 +854,10 @@ class AbstractExcelInPython(ABC):
             # a whole number is written without a fractional part
             return str(int(value))
 
+        if isinstance(value, float):
+            # Excel writes 15 significant digits
+            return format(value, '.15g')
+
         return str(value)
 
     def _parse_date_formats(self, date: str, format: str):
